@@ -85,6 +85,35 @@ def step (_ : Unit) (ts : List String) : Unit × String :=
           if rs.2.fault || rc.2.fault then "FAULT" else s!"connect=1 s={showList rs.1} c={showList rc.1}"
         | _, _ => "FAULT"
       | _, _ => "bad-op"
+    -- server handshake on arbitrary request bytes
+    | ["hs", h] => match unhex h with
+      | some req => hex (serverHandshake req)
+      | none => "bad-op"
+    -- full duplex: data frames written by send() and pongs written by receive(), as the peer parses them
+    | ["duplex", role, st, nmsg, size, seed, nping] =>
+      match roleOf role, unhex st, nmsg.toNat?, size.toNat?, seed.toNat?, nping.toNat? with
+      | some ic, some s, some n, some sz, some sd, some np =>
+        if n < 1 || n > 64 || sz < 1 || sz > 2097152 || np > 5000 then "bad-op" else
+        let payload (i : Nat) : List UInt8 := (List.range sz).map fun j => UInt8.ofNat ((sd + i * 31 + j) % 251)
+        -- each message: the frame send() writes, read back by the frame reader (the mask key is not observable)
+        let datas := (List.range n).map fun i =>
+          match sendFrame ic (rngOf s) 2 (payload i) with
+          | some (bytes, _) => (match readFrame 0 (bytes ++ [0]) with
+              | .ok _ _ buf _ => s!"{buf.length}:{showBytes buf}"
+              | _ => "FAULT")
+          | none => "FAULT"
+        -- the pongs: receive() on the stream of pings, its output parsed frame by frame
+        let pings := (List.range np).flatMap fun i => [0x89, 0x04, 112, UInt8.ofNat (i % 256), UInt8.ofNat (i / 256 % 256), 103]
+        let c := (run { isClient := ic, rng := rngOf s, inp := pings }).2
+        let rec frames (fuel : Nat) (inp : List UInt8) (acc : List UInt8) (k : Nat) : List UInt8 × Nat :=
+          match fuel with
+          | 0 => (acc, k)
+          | fuel + 1 => match readFrame 0 (inp ++ [0]) with
+            | .ok _ _ buf rest => if rest.length ≤ 1 then (acc ++ buf, k + 1) else frames fuel (rest.dropLast) (acc ++ buf) (k + 1)
+            | _ => (acc, k)
+        let (pb, k) := if c.out.isEmpty then ([], 0) else frames (c.out.length + 1) c.out [] 0
+        s!"data={n} {",".intercalate datas} pongs={k}:{showBytes pb}"
+      | _, _, _, _, _, _ => "bad-op"
     -- fragments too long for a byte list: lengths only, by the two limits the model uses (`recvMaxLen`, `recvMaxMsg`)
     | ["bigsum", l, n] => match l.toNat?, n.toNat? with
       | some len, some nfrag =>
